@@ -255,11 +255,13 @@ public:
     
     bool is_open() const
     {
+        guard_type lock(mutex_);
         return State::OPEN == state_;
     }
         
     bool is_closed() const
     {
+        guard_type lock(mutex_);
         return State::CLOSED == state_;
     }
 
